@@ -10,7 +10,7 @@
    and the correspondence check reproduce).
    Specification (M.FeaturesSpec): [spec_step], written without reference to the order. *)
 From Coq Require Import List Arith Bool.
-From M Require Import Features FeaturesSpec FeaturesH FeaturesDyn FeaturesRe.
+From M Require Import Features FeaturesSpec FeaturesH FeaturesDyn FeaturesRe FeaturesFinal.
 From P Require Import FeaturesP FeaturesHP FeaturesDynP FeaturesReP.
 Import ListNotations.
 
@@ -382,3 +382,26 @@ Example C19_retry_reentrant_demo :
     [Some ([IEnter 5 0 1; IEnter 5 0 1; IEnter 5 0 1; IFail 9 0 1], RTrue, 1)].
 Proof. vm_compute. reflexivity. Qed.
 Print Assumptions C19_retry_reentrant_demo.
+
+(* ------------------------------------------------------------------------------------
+   State.final (M.FeaturesFinal): a configuration may mark any states final=True.  The Error
+   contract depends on `accepted` (flag or tag) and on having no outgoing transition only:
+   for EVERY assignment cf_final of final flags — final and accepted in all four
+   combinations, dead end or not — MachineError is raised on entry iff Error is among the
+   mixins, no transition leaves d and d is not accepted. *)
+Theorem C19_error_final_independent :
+  forall (cf : fcfgF) (w : world) (m : fmodel) (e : fevent) (t : ftrans) (d : fstate_id),
+  feat_nodup (c_order (cf_cfg cf)) = true ->
+  first_cand (c_trans (cf_cfg cf)) e (m_state (w_m w m)) = Some t -> ft_dst t = Some d ->
+  (obs_res (fstepF cf w m e) = RExn EMachine <->
+   has_error (c_order (cf_cfg cf)) && negb (has_trigger (cf_cfg cf) d) &&
+   negb (fs_accepted (sdef (cf_cfg cf) d) || nat_mem 0 (fs_tags (sdef (cf_cfg cf) d))) = true).
+Proof. exact error_final_independent. Qed.
+Print Assumptions C19_error_final_independent.
+
+(* ... and so does every observation of every history: two configurations that differ in
+   their final flags only have the same runs. *)
+Theorem C19_final_frame : forall (cf cf' : fcfgF) (w : world) (h : list (fmodel * fevent)),
+  cf_cfg cf = cf_cfg cf' -> frunF cf w h = frunF cf' w h.
+Proof. exact run_final_independent. Qed.
+Print Assumptions C19_final_frame.
